@@ -22,6 +22,13 @@
 (*            the CURRENT (leader, epoch) since the last expiry of the     *)
 (*            timeout window / controller change / stream removal          *)
 (*   obs      result of the last call [a, err]                             *)
+(*   pend     reports that are INSIDE metadataAPI.ReportLeader: they have  *)
+(*            passed the (leader, epoch) check and have not yet reached    *)
+(*            failoverStatus.report (the two are separate critical         *)
+(*            sections; sequence of [w, l, e] in check order)              *)
+(*   taint    GHOST: a report took effect although the pair it named was   *)
+(*            no longer current at that moment (known finding, see         *)
+(*            DoReportApply)                                               *)
 (*                                                                         *)
 (* Requests carry the (leader, epoch) pair the sender believes in; the     *)
 (* controller refuses every request whose pair is not the current one.     *)
@@ -36,7 +43,7 @@
 (* They exist to generate the counterexamples that are replayed on the     *)
 (* real code.                                                              *)
 (***************************************************************************)
-EXTENDS Integers, FiniteSets
+EXTENDS Integers, FiniteSets, Sequences
 
 CONSTANTS Replicas,     \* replica ids of the partition (strings)
           Outsider,     \* an id that is not a replica (reports may come from anywhere)
@@ -44,9 +51,9 @@ CONSTANTS Replicas,     \* replica ids of the partition (strings)
                         \* FALSE: any larger index (recorded traces: the Raft log is shared)
           KeepStatus, CountAll
 
-VARIABLES exists, isr, leader, lepoch, pepoch, e0, fo, armed, good, obs
+VARIABLES exists, isr, leader, lepoch, pepoch, e0, fo, armed, good, obs, pend, taint
 pvars == <<exists, isr, leader, lepoch, pepoch, e0>>   \* replicated partition state
-vars == <<exists, isr, leader, lepoch, pepoch, e0, fo, armed, good, obs>>
+vars == <<exists, isr, leader, lepoch, pepoch, e0, fo, armed, good, obs, pend, taint>>
 
 Reporters == Replicas \cup {Outsider}
 NoFo == [on |-> FALSE, wit |-> {}]
@@ -61,7 +68,7 @@ Stale(l, e) == ~exists \/ l # leader \/ e # lepoch
 
 Refuse(a, err) ==
   /\ obs' = [a |-> a, err |-> err]
-  /\ UNCHANGED <<exists, isr, leader, lepoch, pepoch, e0, fo, armed, good>>
+  /\ UNCHANGED <<exists, isr, leader, lepoch, pepoch, e0, fo, armed, good, pend, taint>>
 
 RefuseStale(a) == IF ~exists THEN Refuse(a, "nopart") ELSE Refuse(a, "stale")
 
@@ -71,22 +78,22 @@ RefuseStale(a) == IF ~exists THEN Refuse(a, "nopart") ELSE Refuse(a, "stale")
 (* expressions serve the bounded model and recorded traces.                *)
 
 GoodAfterReport(w, l, e) ==
-  IF Stale(l, e) THEN good
-  ELSE IF leader' # leader \/ lepoch' # lepoch THEN {} ELSE good \cup {w}
+  IF leader' # leader \/ lepoch' # lepoch THEN {}
+  ELSE IF Stale(l, e) THEN good ELSE good \cup {w}
 GoodAfterISR == IF leader' # leader \/ lepoch' # lepoch THEN {} ELSE good
 
 \* `armed` is not observable either: a report that was recorded without an
 \* election (re)arms the timer, an election attempt stops it
-ArmedAfterReport(w, l, e) == IF Stale(l, e) THEN armed ELSE (obs'.err = "" /\ leader' = leader)
+ArmedAfterEffect == obs'.err = "" /\ leader' = leader
+ArmedAfterReport(w, l, e) == IF Stale(l, e) THEN armed ELSE ArmedAfterEffect
 
 -----------------------------------------------------------------------------
 (* The actions as the code performs them *)
 
-\* metadataAPI.ReportLeader(replica w, leader l, epoch e) -> failoverStatus.report
-\* -> (quorum reached) electNewPartitionLeader -> Raft CHANGE_LEADER -> SetLeader
-DoReportLeader(w, l, e) ==
-  IF Stale(l, e) THEN RefuseStale("Report")
-  ELSE
+\* second half of metadataAPI.ReportLeader: failoverStatus.report(w) -> (quorum
+\* reached) electNewPartitionLeader -> Raft CHANGE_LEADER -> SetLeader.  Nothing in
+\* here looks at the (leader, epoch) pair of the request again.
+ReportEffect(w, l, e, a) ==
     LET wit1    == (IF fo.on THEN fo.wit ELSE {}) \cup {w}
         counted == IF CountAll THEN wit1 ELSE wit1 \cap Followers
         failed  == Cardinality(counted) > Quorum
@@ -94,16 +101,16 @@ DoReportLeader(w, l, e) ==
     IN IF ~failed THEN
          \* recorded, expiry timer (re)armed
          /\ fo' = [on |-> TRUE, wit |-> wit1]
-         /\ obs' = [a |-> "Report", err |-> ""]
+         /\ obs' = [a |-> a, err |-> ""]
          /\ UNCHANGED pvars
-         /\ armed' = ArmedAfterReport(w, l, e)    \* TRUE
+         /\ armed' = ArmedAfterEffect    \* TRUE
          /\ good' = GoodAfterReport(w, l, e)
        ELSE IF Cardinality(isr) <= 1 \/ Followers = {} THEN
          \* timer stopped, "No ISR candidates" (electNewPartitionLeader)
          /\ fo' = after
-         /\ obs' = [a |-> "Report", err |-> "nocand"]
+         /\ obs' = [a |-> a, err |-> "nocand"]
          /\ UNCHANGED pvars
-         /\ armed' = ArmedAfterReport(w, l, e)    \* FALSE
+         /\ armed' = ArmedAfterEffect    \* FALSE
          /\ good' = GoodAfterReport(w, l, e)
        ELSE
          \* timer stopped, new leader = least loaded in-sync follower (any)
@@ -111,9 +118,34 @@ DoReportLeader(w, l, e) ==
          /\ NewIdx(pepoch', pepoch) /\ lepoch' = pepoch'
          /\ UNCHANGED <<exists, isr, e0>>
          /\ fo' = after
-         /\ obs' = [a |-> "Report", err |-> ""]
-         /\ armed' = ArmedAfterReport(w, l, e)    \* FALSE
+         /\ obs' = [a |-> a, err |-> ""]
+         /\ armed' = ArmedAfterEffect    \* FALSE
          /\ good' = GoodAfterReport(w, l, e)
+
+\* metadataAPI.ReportLeader(replica w, leader l, epoch e), one request at a time
+DoReportLeader(w, l, e) ==
+  IF Stale(l, e) THEN RefuseStale("Report")
+  ELSE ReportEffect(w, l, e, "Report") /\ UNCHANGED <<pend, taint>>
+
+\* Concurrent requests: the first half of ReportLeader (partition lookup and the
+\* (leader, epoch) check) ...
+DoReportCheck(w, l, e) ==
+  IF Stale(l, e) THEN RefuseStale("ReportCheck")
+  ELSE /\ pend' = Append(pend, [w |-> w, l |-> l, e |-> e])
+       /\ obs' = [a |-> "ReportCheck", err |-> ""]
+       /\ UNCHANGED <<exists, isr, leader, lepoch, pepoch, e0, fo, armed, good, taint>>
+
+\* ... and the second half, arbitrarily later, whatever happened in between.
+\* KNOWN FINDING: the pair is not checked again, so a report that named a leader
+\* or epoch which is stale by now still registers a witness and can trigger an
+\* election against the NEW leader (taint).
+\* (domain: the stream still exists)
+DoReportApply(i) ==
+  /\ i \in 1..Len(pend) /\ exists
+  /\ LET r == pend[i] IN
+     /\ ReportEffect(r.w, r.l, r.e, "ReportApply")
+     /\ taint' = (taint \/ Stale(r.l, r.e))
+  /\ pend' = SubSeq(pend, 1, i - 1) \o SubSeq(pend, i + 1, Len(pend))
 
 \* the expiry timer fires: more than ReplicaMaxLeaderTimeout passed without a report
 DoExpire ==
@@ -121,7 +153,7 @@ DoExpire ==
   /\ armed' = IF fo.on /\ armed THEN FALSE ELSE armed
   /\ good' = {}
   /\ obs' = [a |-> "Expire", err |-> ""]
-  /\ UNCHANGED pvars
+  /\ UNCHANGED <<pvars, pend, taint>>
 
 \* metadataAPI.ShrinkISR(replica r, leader l, epoch e) -> Raft SHRINK_ISR -> RemoveFromISR
 \* (domain: r is a replica and not the leader named in the request)
@@ -130,7 +162,7 @@ DoShrinkISR(r, l, e) ==
   ELSE
     /\ isr' = isr \ {r}
     /\ NewIdx(pepoch', pepoch)
-    /\ UNCHANGED <<exists, leader, lepoch, e0, fo, armed>>
+    /\ UNCHANGED <<exists, leader, lepoch, e0, fo, armed, pend, taint>>
     /\ good' = GoodAfterISR
     /\ obs' = [a |-> "Shrink", err |-> ""]
 
@@ -141,7 +173,7 @@ DoExpandISR(r, l, e) ==
   ELSE
     /\ isr' = isr \cup {r}
     /\ NewIdx(pepoch', pepoch)
-    /\ UNCHANGED <<exists, leader, lepoch, e0, fo, armed>>
+    /\ UNCHANGED <<exists, leader, lepoch, e0, fo, armed, pend, taint>>
     /\ good' = GoodAfterISR
     /\ obs' = [a |-> "Expand", err |-> ""]
 
@@ -150,16 +182,17 @@ DoExpandISR(r, l, e) ==
 DoLoseControllership ==
   /\ fo' = NoFo /\ armed' = FALSE /\ good' = {}
   /\ obs' = [a |-> "Lose", err |-> ""]
-  /\ UNCHANGED pvars
+  /\ UNCHANGED <<pvars, pend, taint>>
 
 \* DeleteStream -> Raft DELETE_STREAM -> removeStream
+\* (domain: no report is inside ReportLeader)
 DoRemoveStream ==
   IF ~exists THEN Refuse("Remove", "nostream")
   ELSE
     /\ exists' = FALSE
     /\ fo' = NoFo /\ armed' = FALSE /\ good' = {}
     /\ obs' = [a |-> "Remove", err |-> ""]
-    /\ UNCHANGED <<isr, leader, lepoch, pepoch, e0>>
+    /\ UNCHANGED <<isr, leader, lepoch, pepoch, e0, pend, taint>>
 
 -----------------------------------------------------------------------------
 (* What property C07 demands *)
@@ -197,6 +230,21 @@ P_ReportLeader(w, l, e) ==
                \* only after more than half of the in-sync followers reported
                /\ 2 * Cardinality(ValidWitnesses(w)) > Cardinality(Followers)
 
+\* a request that is inside ReportLeader takes effect when it reaches
+\* failoverStatus.report: if the pair it named is stale by then it must not
+\* change anything; otherwise it is judged like any report
+P_ReportApply(i) ==
+  LET r == pend[i] IN
+  /\ P_Epochs
+  /\ IF Stale(r.l, r.e) THEN NoChange
+     ELSE /\ isr' = isr /\ exists' = exists
+          /\ lepoch' = lepoch => pepoch' = pepoch
+          /\ lepoch' # lepoch =>
+               /\ leader' \in isr /\ leader' # r.l
+               /\ 2 * Cardinality(ValidWitnesses(r.w)) > Cardinality(Followers)
+
+P_ReportCheck(w, l, e) == NoChange /\ (Stale(l, e) => obs'.err # "")
+
 P_ShrinkISR(r, l, e) ==
   /\ P_Epochs
   /\ IF Stale(l, e) THEN obs'.err # "" /\ NoChange
@@ -221,7 +269,8 @@ TypeOK == /\ exists \in BOOLEAN /\ armed \in BOOLEAN
           /\ lepoch <= pepoch /\ e0 <= lepoch
 \* a status that is kept has an armed timer (so that it cannot go stale), and
 \* there is none for a partition that does not exist
-StatusLive == (fo.on => (armed /\ exists)) /\ (~fo.on => fo.wit = {})
+StatusLive == ~taint => ((fo.on => (armed /\ exists)) /\ (~fo.on => fo.wit = {}))
 \* the recorded witnesses are what the property counts
-WitnessesAreGood == fo.on => fo.wit \subseteq good
+WitnessesAreGood == ~taint => (fo.on => fo.wit \subseteq good)
+NoTaint == ~taint
 =============================================================================
